@@ -510,6 +510,11 @@ type fedSession struct {
 	// gate is called before answering (used to order deferred fetches)
 	gate     func(sub string, query string, vars []byte)
 	problems []string
+	// header(sub) gives extra response headers of a subgraph (Cache-Control for C16)
+	header func(sub string) http.Header
+	// rewrite(sub, query, variables, response) may replace a well-formed answer (content-based, so that the same request
+	// gets the same answer every time)
+	rewrite func(sub string, query string, vars []byte, resp string) string
 }
 
 type fedTransport struct {
@@ -574,8 +579,19 @@ func (t *fedTransport) RoundTrip(req *http.Request) (*http.Response, error) {
 			resp = strings.Replace(resp, `"_entities":[`, `"_entities":[null,`, 1)
 		}
 	}
+	if sess.rewrite != nil && fault == nil {
+		resp = sess.rewrite(t.sub.Name, in.Query, in.Variables, resp)
+	}
 	sess.record(fedExchange{Subgraph: t.sub.Name, Query: in.Query, Variables: in.Variables, Response: resp, Status: status, Seq: seq})
-	return fedHTTP(status, resp), nil
+	out := fedHTTP(status, resp)
+	if sess.header != nil {
+		for k, vs := range sess.header(t.sub.Name) {
+			for _, v := range vs {
+				out.Header.Add(k, v)
+			}
+		}
+	}
+	return out, nil
 }
 
 func fedHTTP(status int, body string) *http.Response {
